@@ -30,6 +30,7 @@ func TestVerif_C01(t *testing.T) {
 		}()
 		t.Repeat(map[string]func(*rapid.T){
 			"batch": func(t *rapid.T) { g.t = t; g.applyBatch(g.genBatchOp()) },
+			"rejectedBatch": g.rejectedBatchAction(),
 			"txn":   func(t *rapid.T) { g.t = t; g.applyTxn(g.genTxnOp()) },
 			"pagedRead": func(t *rapid.T) {
 				g.t = t
@@ -85,7 +86,7 @@ func replayGraph(t *testing.T, ops []Op, oracle func(*gm)) {
 // deletes of a drawn subset. Returns the page limit sequence to read with.
 func largeCase(t *rapid.T, g *gm) []int {
 	p := g.h.P[0]
-	n := rapid.IntRange(260, 900).Draw(t, "n")
+	n := rapid.IntRange(260, 1500).Draw(t, "n")
 	if rapid.IntRange(0, 3).Draw(t, "small") == 0 {
 		n = rapid.IntRange(1, 40).Draw(t, "nsmall")
 	}
